@@ -11,6 +11,8 @@
      reduce_pX pX pf / reduce_pf pf          the perturbations of one realization with the failed ones deleted
      estimate / estimate_all / gradient_of   _calculate_estimated_functions / _calculate_gradient (zero failed weights,
                                              renormalise, estimator); solve = _invert_linear_equations (any function)
+     merged_rows / merged_gradient_of        _estimate_merged_gradient: the stacked rows (weight, variable difference,
+                                             function difference) of the one solve; msolve = weighting + solver
      fres_eq / gres_eq / veq                 equality of results up to == on Q *)
 From Coq Require Import String QArith List Bool Arith ZArith.
 From Ropt Require Import Base.Num Base.ListX Gen.Generated Model.Ensemble Proofs.Ensemble Proofs.EnsembleFilters.
@@ -119,6 +121,32 @@ Theorem C03_as_if_absent_gradients : forall (solve : list vec -> list Q -> vec) 
                        (gather keep wrow) (repeat false (count_ok failed))).
 Proof. exact gradient_removal. Qed.
 
+(* "as if absent", merged estimation (gradient.merge_realizations: one least-squares solve over the stacked rows of all
+   realizations): the rows that enter the solve belong to realizations with a non-zero normalised weight -- hence never
+   to a failed one -- and to perturbations whose function difference is defined (no NaN in the perturbed or the
+   unperturbed value) *)
+Theorem C03_merged_rows_only : forall x fs pXs pfs w wr dx d,
+  In (wr, dx, d) (merged_rows x fs pXs pfs w) ->
+  exists r f pX pf, nth_error fs r = Some f /\ nth_error pXs r = Some pX /\ nth_error pfs r = Some pf /\
+                    nth_error w r = Some wr /\ ~ wr == 0 /\
+                    In (dx, d) (combine (fst (realization_system x f pX pf)) (snd (realization_system x f pX pf))).
+Proof. exact merged_rows_In. Qed.
+
+(* ... and for every way of weighting and solving the stacked rows (msolve: any function of the rows that respects ==
+   on the weights; the current code multiplies the function differences by the weight and calls the SVD solver, a
+   weighted least-squares repair of known finding C02:merged-gradient-scaled is another instance), the merged gradient
+   of the full ensemble equals that of the ensemble with the failed realizations and failed perturbations deleted and
+   the weights renormalised *)
+Theorem C03_as_if_absent_merged : forall (msolve : list mrow -> vec),
+  (forall a b, Forall2 mrow_eq a b -> veq (msolve a) (msolve b)) ->
+  forall x fs pXs pfs wrow failed, length wrow = length failed ->
+  let keep := keep_of failed in
+  gres_eq (merged_gradient_of msolve x fs pXs pfs wrow failed)
+          (merged_gradient_of msolve x (gather keep fs)
+                              (map2 reduce_pX (gather keep pXs) (gather keep pfs)) (map reduce_pf (gather keep pfs))
+                              (gather keep wrow) (repeat false (count_ok failed))).
+Proof. exact merged_removal. Qed.
+
 (* realization filters are part of the "weights in force": on the filter models of C04/C05 (Model/Filters.v, not
    imported here, hence the qualified names) the CVaR weights and the sort-window weights computed with a failure mask
    are, on the survivors, the weights computed on the ensemble with the failed realizations deleted, and exact zeros
@@ -158,12 +186,20 @@ Example C03_example :
   gres_eq (gradient_of solve 1 Mean [0] (gather (keep_of failed) fs)
                        (map2 reduce_pX (gather (keep_of failed) pXs) (gather (keep_of failed) pfs))
                        (map reduce_pf (gather (keep_of failed) pfs))
-                       (gather (keep_of failed) wrow) (repeat false (count_ok failed))) (GMean [Q_ 1 1]).
+                       (gather (keep_of failed) wrow) (repeat false (count_ok failed))) (GMean [Q_ 1 1]) /\
+  (* merged: msolve = sum of weight * function difference over the stacked rows; rows (2/3,[1],1) (2/3,[2],2) (1/3,[2],2) *)
+  let msolve := fun rows : list mrow => [qsum (map (fun r : mrow => fst (fst r) * snd r) rows)] in
+  (forall a b, Forall2 mrow_eq a b -> veq (msolve a) (msolve b)) /\
+  length (merged_rows [0] fs pXs pfs [Q_ 2 3; 0; Q_ 1 3]) = 3%nat /\
+  gres_eq (merged_gradient_of msolve [0] fs pXs pfs wrow failed) (GMean [Q_ 8 3]).
 Proof.
   cbv zeta. split; [vm_compute; reflexivity|]. split; [vm_compute; reflexivity|]. split; [vm_compute; reflexivity|].
   split; [vm_compute; reflexivity|]. split; [vm_compute; reflexivity|]. split; [intros A b; reflexivity|].
   split; [vm_compute; reflexivity|]. split; [vm_compute; reflexivity|]. split; [vm_compute; reflexivity|].
-  split; vm_compute; repeat constructor.
+  split; [vm_compute; repeat constructor|]. split; [vm_compute; repeat constructor|].
+  split; [|split; [vm_compute; reflexivity | vm_compute; repeat constructor]].
+  intros a b H. constructor; [|constructor].
+  induction H as [|r r' a b [Hw [_ Hd]] _ IH]; [reflexivity|]. cbn [map]. rewrite !qsum_cons, IH, Hw, Hd. reflexivity.
 Qed.
 
 Print Assumptions C03_failed_iff_any_nan.
@@ -177,4 +213,6 @@ Print Assumptions C03_as_if_absent_estimate.
 Print Assumptions C03_as_if_absent_functions.
 Print Assumptions C03_perturbations_as_if_absent.
 Print Assumptions C03_as_if_absent_gradients.
+Print Assumptions C03_merged_rows_only.
+Print Assumptions C03_as_if_absent_merged.
 Print Assumptions C03_filters_commute_with_removal.
